@@ -1,4 +1,4 @@
-use nla::asn1::{ASN1, Sequence, ExplicitTag, SequenceOf, ASN1Type, OctetString, Integer, to_der};
+use nla::asn1::{ASN1, Sequence, ExplicitTag, SequenceOf, ASN1Type, OctetString, Integer, to_der, from_der};
 use model::error::{RdpError, RdpErrorKind, Error, RdpResult};
 use num_bigint::{BigUint};
 use yasna::Tag;
@@ -59,12 +59,7 @@ pub fn read_ts_server_challenge(stream: &[u8]) -> RdpResult<Vec<u8>> {
          )
     ];
 
-    yasna::parse_der(stream, |reader| {
-        if let Err(Error::ASN1Error(e)) = ts_request.read_asn1(reader) {
-            return Err(e)
-        }
-        Ok(())
-    })?;
+    from_der(&mut ts_request, stream)?;
 
     let nego_tokens = cast!(ASN1Type::SequenceOf, ts_request["negoTokens"])?;
     let first_nego_tokens = cast!(ASN1Type::Sequence, try_option!(nego_tokens.inner.get(0), "CSSP: the server challenge carries no negoToken")?)?;
@@ -122,12 +117,7 @@ pub fn read_ts_validate(request: &[u8]) -> RdpResult<Vec<u8>> {
         "pubKeyAuth" => ExplicitTag::new(Tag::context(3), OctetString::new())
     ];
 
-    yasna::parse_der(request, |reader| {
-        if let Err(Error::ASN1Error(e)) = ts_challenge.read_asn1(reader) {
-            return Err(e)
-        }
-        Ok(())
-    })?;
+    from_der(&mut ts_challenge, request)?;
     let pubkey = cast!(ASN1Type::OctetString, ts_challenge["pubKeyAuth"])?;
     Ok(pubkey.to_vec())
 }
